@@ -109,6 +109,11 @@ def merge_params(other_params, target_params):
             merge_present_params(other_params[name], target_params[name])
         else:
             target_params[name] = other_params[name]
+    # The declared order is the order of the interface: documented parameters do not move to the front
+    for name in tuple(other_params) + tuple(
+        filter(lambda name_: name_ not in other_params, tuple(target_params))
+    ):
+        target_params[name] = target_params.pop(name)
     return target_params
 
 
